@@ -5,4 +5,5 @@ sh "$HERE/vk/bootstrap.sh" || exit 3
 cd "$HERE"
 export PYGOPHERD_VERIF=1
 export PYTHONDONTWRITEBYTECODE=1
-exec "$HERE/.venv/bin/python" -m vk check "$1" --tier "${2:-quick}"
+P="$1"; T="${2:-quick}"; shift; [ $# -gt 0 ] && shift
+exec "$HERE/.venv/bin/python" -m vk check "$P" --tier "$T" "$@"
